@@ -365,6 +365,9 @@ func cAuth(ctx *Ctx, prop string) {
 	if prop == "C08" {
 		c08fresh(ctx)
 	}
+	if prop == "C01" {
+		c01Interleave(ctx, shard+100)
+	}
 }
 
 // callAuth runs the real authenticator; a panic of the implementation is an observation.
